@@ -824,3 +824,160 @@ theorem dictGetD_small {κ : Type} [BEq κ] [LawfulBEq κ] {D : List (κ × Int)
   | some v => simpa using dict_val_small hD (dictGet?_mem D k v h)
 
 end Py
+
+namespace Py
+
+/-! ## elements of comprehension sources are digit characters (strings of unknown length) -/
+
+theorem isDigits_of_mem_chars {T a : Str} (hT : AllIn isAsciiDigit T) (ha : a ∈ chars T) :
+    IsDigits a ∧ a.length ≤ 4300 := by
+  obtain ⟨c, hc, rfl⟩ := mem_chars.mp ha
+  exact ⟨⟨by simp, by simpa using hT c hc⟩, by simp⟩
+
+theorem isDigits_of_mem_zip_chars_snd {α : Type} {w : List α} {T : Str} {a : α × Str} (hT : AllIn isAsciiDigit T)
+    (ha : a ∈ w.zip (chars T)) : IsDigits a.2 ∧ a.2.length ≤ 4300 :=
+  isDigits_of_mem_chars hT (List.of_mem_zip (a := a.1) (b := a.2) (by simpa using ha)).2
+
+theorem isDigits_of_mem_zip_chars_fst {α : Type} {w : List α} {T : Str} {a : Str × α} (hT : AllIn isAsciiDigit T)
+    (ha : a ∈ (chars T).zip w) : IsDigits a.1 ∧ a.1.length ≤ 4300 :=
+  isDigits_of_mem_chars hT (List.of_mem_zip (a := a.1) (b := a.2) (by simpa using ha)).1
+
+theorem isDigits_of_mem_enumerate_chars {T : Str} {k : Int} {a : Int × Str} (hT : AllIn isAsciiDigit T)
+    (ha : a ∈ enumerate (chars T) k) : IsDigits a.2 ∧ a.2.length ≤ 4300 :=
+  isDigits_of_mem_chars hT (mem_enumerate ha).1
+
+theorem isDigits_of_mem_reverse_chars {T a : Str} (hT : AllIn isAsciiDigit T) (ha : a ∈ (chars T).reverse) :
+    IsDigits a ∧ a.length ≤ 4300 :=
+  isDigits_of_mem_chars hT (List.mem_reverse.mp ha)
+
+theorem isDigits_of_mem_enumerate_reverse_chars {T : Str} {k : Int} {a : Int × Str} (hT : AllIn isAsciiDigit T)
+    (ha : a ∈ enumerate (chars T).reverse k) : IsDigits a.2 ∧ a.2.length ≤ 4300 :=
+  isDigits_of_mem_chars hT (List.mem_reverse.mp (mem_enumerate ha).1)
+
+theorem allIn_reverse {p : Nat → Bool} {s : Str} (h : AllIn p s) : AllIn p s.reverse := AllIn.reverse_iff.mpr h
+
+end Py
+
+namespace Py
+
+/-- a one-character key of a literal dictionary: class facts by enumeration of the keys -/
+theorem of_dictHas_single {ν : Type} {D : List (Str × ν)} {Q : Nat → Bool} (hQ : D.all (fun p => p.1.all Q) = true)
+    {c : Nat} (h : dictHas D [c] = true) : Q c = true := by
+  rw [dictHas_eq_any, List.any_eq_true] at h
+  obtain ⟨p, hp, hk⟩ := h
+  have h1 := List.all_eq_true.mp hQ p hp
+  have hk' : p.1 = [c] := by simpa using hk
+  rw [hk'] at h1
+  simpa using h1
+
+end Py
+
+namespace Py
+
+/-! ## elements of comprehension sources are characters of an alphabet -/
+
+theorem strIn_of_mem_chars' {T a A : Str} (hT : AllIn (fun c => A.contains c) T) (ha : a ∈ chars T) :
+    strIn a A = true := by
+  obtain ⟨c, hc, rfl⟩ := mem_chars.mp ha
+  rw [strIn_single]; exact hT c hc
+
+theorem strIn_of_mem_zip_chars_snd {α : Type} {w : List α} {T A : Str} {a : α × Str}
+    (hT : AllIn (fun c => A.contains c) T) (ha : a ∈ w.zip (chars T)) : strIn a.2 A = true :=
+  strIn_of_mem_chars' hT (List.of_mem_zip (a := a.1) (b := a.2) (by simpa using ha)).2
+
+theorem strIn_of_mem_zip_chars_fst {α : Type} {w : List α} {T A : Str} {a : Str × α}
+    (hT : AllIn (fun c => A.contains c) T) (ha : a ∈ (chars T).zip w) : strIn a.1 A = true :=
+  strIn_of_mem_chars' hT (List.of_mem_zip (a := a.1) (b := a.2) (by simpa using ha)).1
+
+theorem strIn_of_mem_enumerate_chars {T A : Str} {k : Int} {a : Int × Str}
+    (hT : AllIn (fun c => A.contains c) T) (ha : a ∈ enumerate (chars T) k) : strIn a.2 A = true :=
+  strIn_of_mem_chars' hT (mem_enumerate ha).1
+
+theorem strIn_of_mem_reverse_chars {T a A : Str} (hT : AllIn (fun c => A.contains c) T)
+    (ha : a ∈ (chars T).reverse) : strIn a A = true :=
+  strIn_of_mem_chars' hT (List.mem_reverse.mp ha)
+
+theorem strIn_of_mem_enumerate_reverse_chars {T A : Str} {k : Int} {a : Int × Str}
+    (hT : AllIn (fun c => A.contains c) T) (ha : a ∈ enumerate (chars T).reverse k) : strIn a.2 A = true :=
+  strIn_of_mem_chars' hT (List.mem_reverse.mp (mem_enumerate ha).1)
+
+/-- a gate over one alphabet gives the class fact for a larger alphabet -/
+theorem allIn_contains_of_alphabet {A B s : Str} (hs : s.all (fun c => A.contains c) = true)
+    (hAB : A.all (fun c => B.contains c) = true) : AllIn (fun c => B.contains c) s :=
+  allIn_of_alphabet (P := fun c => B.contains c) hs hAB
+
+theorem allIn_contains_of_digits {B s : Str} (hs : AllIn isAsciiDigit s)
+    (hB : (List.range' 48 10).all (fun c => B.contains c) = true) : AllIn (fun c => B.contains c) s :=
+  fun c hc => of_isAsciiDigit (Q := fun c => B.contains c) hB (hs c hc)
+
+end Py
+
+namespace Py
+theorem AllIn.cleanP_digits' {s : Str} (h : AllIn isAsciiDigit s) (d : Str) : AllIn isAsciiDigit (Py.cleanP s d) :=
+  AllIn.cleanP_of_alnum h (fun c hc => by simp only [isAsciiAlnum, hc, Bool.true_or])
+theorem AllIn.upper_digits' {s : Str} (h : AllIn isAsciiDigit s) : AllIn isAsciiDigit (Py.upper s) := by
+  rw [upper_of_asciiDigits h]; exact h
+end Py
+
+namespace Py
+
+/-! ## comprehensions whose results are used later (`''.join(str(..) for ..)`): the graph of the element function -/
+
+/-- `mapM`: every result comes from an element (the element function's graph is kept, so that facts about the results
+can be re-derived by running `mvcgen` on `f a` with the wanted post-condition, see `post_of_ok`) -/
+@[spec high] theorem mapM_spec2 {α β : Type} (f : α → R β) (l : List α)
+    (h : ∀ a ∈ l, ⦃⌜True⌝⦄ f a ⦃post⟨fun _ => ⌜True⌝, fun _ => ⌜False⌝⟩⦄) :
+    ⦃⌜True⌝⦄ l.mapM f
+    ⦃post⟨fun rs => ⌜rs.length = l.length ∧ ∀ r ∈ rs, ∃ a ∈ l, f a = .ok r⌝, fun _ => ⌜False⌝⟩⦄ :=
+  triple_of_Ok (by
+    obtain ⟨rs, h1, h2, h3⟩ := Ok_mapM f (fun r => ∃ a ∈ l, f a = .ok r) l (fun a ha => by
+      obtain ⟨b, hb, _⟩ := Ok_of_triple (h a ha)
+      exact ⟨b, hb, a, ha, hb⟩)
+    exact ⟨rs, h1, h2, h3⟩)
+
+theorem post_of_ok {α : Type} {x : R α} {Q : α → Prop} {r : α}
+    (h : ⦃⌜True⌝⦄ x ⦃post⟨fun v => ⌜Q v⌝, fun _ => ⌜True⌝⟩⦄) (hx : x = .ok r) : Q r := by
+  have := holds_of_triple x Q (fun _ => True) h
+  rw [hx] at this
+  exact this
+
+end Py
+
+namespace Py
+
+theorem nonneg_of_mem {w : List Int} (hw : w.all (fun x => decide (0 ≤ x)) = true) {x : Int} (h : x ∈ w) : 0 ≤ x := by
+  simpa using List.all_eq_true.mp hw x h
+
+theorem nonneg_of_mem_zip_fst {β : Type} {w : List Int} {l : List β} {a : Int × β}
+    (hw : w.all (fun x => decide (0 ≤ x)) = true) (h : a ∈ w.zip l) : 0 ≤ a.1 :=
+  nonneg_of_mem hw (List.of_mem_zip (a := a.1) (b := a.2) (by simpa using h)).1
+
+theorem nonneg_of_mem_zip_snd {β : Type} {w : List Int} {l : List β} {a : β × Int}
+    (hw : w.all (fun x => decide (0 ≤ x)) = true) (h : a ∈ l.zip w) : 0 ≤ a.2 :=
+  nonneg_of_mem hw (List.of_mem_zip (a := a.1) (b := a.2) (by simpa using h)).2
+
+theorem nonneg_of_mem_enumerate {β : Type} {l : List β} {k : Int} {a : Int × β} (hk : 0 ≤ k)
+    (h : a ∈ enumerate l k) : 0 ≤ a.1 := by
+  have := (mem_enumerate h).2.1
+  omega
+
+end Py
+
+namespace Py.Re
+variable [T : UniTables]
+
+/-- `[0-9]` / `[A-Z]` without IGNORECASE, folded to the arithmetic character classes -/
+theorem classMatch_digit {fl : Flags} (h : fl.ignorecase = false) (c : Nat) :
+    classMatch fl false [.range 48 57] c = isAsciiDigit c := by
+  simp [classMatch, h, itemMatch]
+
+theorem classMatch_upper {fl : Flags} (h : fl.ignorecase = false) (c : Nat) :
+    classMatch fl false [.range 65 90] c = isAsciiUpper c := by
+  simp [classMatch, h, itemMatch]
+
+end Py.Re
+
+namespace Py
+theorem holds_ok {α : Type} {x : R α} {v : α} {Q : α → Prop} {E : Exc → Prop} (h : x = .ok v) (hs : Holds x Q E) : Q v := by
+  rw [h] at hs; exact hs
+end Py
